@@ -2,16 +2,91 @@
     Input: the abstract description of what was logged (derivation chain + record, with the
     oracle texts the harness obtained from the standard library) and the byte strings the
     real handler passed to its io.Writer.  The SPECIFICATION ([parse_object] + [expected])
-    judges the implementation's bytes; the model is compared byte-wise (drift only). *)
+    judges the implementation's bytes; the model is compared byte-wise (drift only).
+    [expected] is the theorem's function, applied to the input with its encoding/json oracle texts
+    re-printed canonically (numbers marked for numeric comparison); nothing else differs. *)
 From Coq Require Import List NArith ZArith Bool.
 Import ListNotations.
 From Glb Require Import Lib.Utf8 Lib.JsonDec Lib.Json Model.LoggerJson Model.LoggerJsonSpec.
 Open Scope N_scope.
 
+(** ** numbers that come from an encoding/json oracle are compared NUMERICALLY
+    The expected text of a float is what the harness obtained from encoding/json; an implementation may print
+    the same number differently (1e-07 / 1e-7, 1e+20 / 100000000000000000000).  [canon_num] maps a JSON number
+    text to sign, mantissa digits without leading / trailing zeros, 'E', exponent; zero is "0E0".  Go never
+    prints a capital E, so a capital E marks an expected number as "compare canonically".  Integers of
+    VInt / VUint / VDur stay textual. *)
+Fixpoint strip0 (l : list N) : list N :=
+  match l with d :: t => if d =? 48 then strip0 t else l | [] => [] end.
+
+Definition canon_num (t : list N) : list N :=
+  let (sg, s1) := num_sign t in
+  let (ip, s2) := span_digits s1 in
+  let (fp, s3) := match s2 with
+                  | p :: u => if p =? 46 then span_digits u else ([], s2)
+                  | [] => ([], s2)
+                  end in
+  let ex : Z := match s3 with
+                | e :: u => if (e =? 101) || (e =? 69) then
+                              match u with
+                              | g :: w => if g =? 45 then Z.opp (Z.of_N (of_dec (fst (span_digits w))))
+                                          else if g =? 43 then Z.of_N (of_dec (fst (span_digits w)))
+                                          else Z.of_N (of_dec (fst (span_digits u)))
+                              | [] => 0%Z
+                              end
+                            else 0%Z
+                | [] => 0%Z
+                end in
+  let d1 := strip0 (ip ++ fp) in
+  let d2r := strip0 (rev d1) in
+  let e := (ex - Z.of_nat (length fp) + Z.of_nat (length d1 - length d2r))%Z in
+  match d2r with
+  | [] => [48; 69; 48]
+  | _ => sg ++ rev d2r ++ [69] ++ to_dec_z e
+  end.
+
+Fixpoint print_canon (j : jval) {struct j} : list N :=
+  match j with
+  | JStr s => quoted s
+  | JNum t => canon_num t
+  | JTrue => [116; 114; 117; 101]
+  | JFalse => [102; 97; 108; 115; 101]
+  | JNull => [110; 117; 108; 108]
+  | JArr l =>
+    [91] ++ (fix go (l : list jval) (first : bool) : list N :=
+               match l with
+               | [] => []
+               | x :: t => (if first then [] else [44]) ++ print_canon x ++ go t false
+               end) l true ++ [93]
+  | JObj m =>
+    [123] ++ (fix go (m : list (list N * jval)) (first : bool) : list N :=
+                match m with
+                | [] => []
+                | (k, x) :: t => (if first then [] else [44]) ++ quoted k ++ [58] ++ print_canon x ++ go t false
+                end) m true ++ [125]
+  end.
+
+Definition canon_raw (b : list N) : list N :=
+  match parse_exact b with Some j => print_canon j | None => b end.
+
+Fixpoint canon_value (v : value) : value :=
+  match v with
+  | VRaw (ROk b) => VRaw (ROk (canon_raw b))
+  | VGroup l => VGroup ((fix go (l : list (list N * value)) : list (list N * value) :=
+                           match l with [] => [] | (k, v') :: t => (k, canon_value v') :: go t end) l)
+  | _ => v
+  end.
+Definition canon_attrs (l : list (list N * value)) : list (list N * value) := map (fun kv => (fst kv, canon_value (snd kv))) l.
+Definition canon_chain (c : list deriv) : list deriv :=
+  map (fun d => match d with DAttrs al => DAttrs (canon_attrs al) | DGroup g => DGroup g end) c.
+Definition canon_record (r : record) : record :=
+  mkR (time_txt r) (lvl r) (src r) (msg r) (canon_attrs (attrs r)).
+
+(** [a] = expected (numbers with a capital E are canonical), [b] = observed *)
 Fixpoint jval_eqb (a b : jval) {struct a} : bool :=
   match a, b with
   | JStr x, JStr y => bytes_eqb x y
-  | JNum x, JNum y => bytes_eqb x y
+  | JNum x, JNum y => if existsb (fun c => c =? 69) x then bytes_eqb x (canon_num y) else bytes_eqb x y
   | JTrue, JTrue | JFalse, JFalse | JNull, JNull => true
   | JArr l, JArr m =>
     (fix go (l m : list jval) : bool :=
@@ -43,6 +118,7 @@ Record verdict := {
   one_write : bool;    (* exactly one Write *)
   line_ok : bool;      (* ends in exactly one newline, none inside *)
   spec_ok : bool;      (* parses as one JSON object that decodes to [expected] *)
+  utf8_line : bool;    (* the line is valid UTF-8 unless an embedded encoding/json text is not *)
   model_ok : bool      (* bytes equal to the model's *)
 }.
 
@@ -55,16 +131,17 @@ Definition check_case (chain : list deriv) (r : record) (writes : list (list N))
        line_ok := match body with Some _ => true | None => false end;
        spec_ok := match body with
                   | Some b => match parse_object b with
-                              | Some (j, _) => jval_eqb j (JObj (expected chain r))
+                              | Some (j, _) => jval_eqb (JObj (expected (canon_chain chain) (canon_record r))) j
                               | None => false
                               end
                   | None => false
                   end;
+       utf8_line := if raws_utf8 chain r then utf8_ok w else true;
        model_ok := bytes_eqb (handle (derive chain) r) w |}
-  | _ => {| wf_ok := wf; one_write := false; line_ok := false; spec_ok := false; model_ok := false |}
+  | _ => {| wf_ok := wf; one_write := false; line_ok := false; spec_ok := false; utf8_line := false; model_ok := false |}
   end.
 
-Definition spec_holds (v : verdict) : bool := one_write v && line_ok v && spec_ok v.
+Definition spec_holds (v : verdict) : bool := one_write v && line_ok v && spec_ok v && utf8_line v.
 Definition verdict_ok (v : verdict) : bool := wf_ok v && spec_holds v && model_ok v.
 
 (** for the cross-validation of the parser against encoding/json: a canonical dump of a parsed text *)
